@@ -11,9 +11,12 @@ LEVEL = "proof"
 META = {
     "category": "proof",
     "text": "A reference source semantics for a Vyper fragment (coq/C01/VyCore.v: checked integer arithmetic, bool, "
-            "arrays, DynArray, structs, storage/transient, internal calls, loops, asserts, logs) written independently of "
+            "arrays, DynArray, structs, HashMap, Bytes/String, bytesM, flags, decimals, shifts, **, storage/transient, immutables + "
+            "constructor, default arguments, internal calls, calls to a scripted external callee, self.balance/send, loops, "
+            "asserts with reasons, logs) written independently of "
             "both code generators, with machine-checked laws (determinism, exact-or-revert arithmetic, store lens laws, "
-            "termination with a static fuel bound). The real compiler is tied to it per generated program: every "
+            "termination with a static fuel bound) and a verified compiler for the legacy int/bool expression fragment "
+            "(expr_compile_correct, tied by syntactic equality with the real IR). The real compiler is tied to it per generated program: every "
             "configuration's bytecode is executed on pyrevm and status/return data/logs/final storage are compared with "
             "the semantics' prediction computed by vm_compute. Partial: the compiler is not proved correct; coverage of "
             "the compiler is per generated program.",
